@@ -96,6 +96,9 @@ def run_case(bib, kv, op, inplace, history=False):
         target = lib.blocks[1]
         target.entry_type = "article"
         target.fields = [mk(i, k, v) for i, (k, v) in enumerate(kv)]
+    if len(lib.blocks) != (6 if sub is not None else 5):
+        # the middlewares of the entry's past already lost or added a block ("other blocks untouched")
+        return {"ctor": True, "raised": False, "out": [], "idem": True, "others": False, "blocks": f"{len(lib.blocks)} blocks after the earlier runs"}
     if sub is not None:
         # an entry of an application-defined subclass of Entry holding the same fields: it is an entry like any other
         lib.blocks[5].fields = [M.Field(k, v, i) for i, (k, v) in enumerate(kv)]
@@ -106,8 +109,13 @@ def run_case(bib, kv, op, inplace, history=False):
         shared = lib.blocks[1].fields[0]
         lib.add(M.Entry("book", "shares-a-field", [shared], start_line=20, raw="raw5"))
     before = proj_others(lib)
+    nblocks_before = len(lib.blocks)
     try:
         lib2 = mw.transform(lib)
+        if len(lib2.blocks) != nblocks_before:
+            # a block went missing or appeared: "other blocks untouched" is violated, whatever else holds
+            return {"ctor": True, "raised": False, "out": [[f.key, f.value] for b in lib2.blocks[1:2] if hasattr(b, "fields") for f in b.fields],
+                    "idem": True, "others": False, "blocks": f"{len(lib2.blocks)} blocks for {nblocks_before}"}
         if shared is not None:
             got_shared = [(f.key.lower(), f.value) for f in lib2.blocks[-1].fields]
             if got_shared != [(kv[0][0].lower(), kv[0][1])]:
